@@ -329,6 +329,11 @@ func (x *xl) expr(e ast.Expr) ([]string, string, error) {
 	case *ast.BinaryExpr:
 		return x.binary(y)
 	case *ast.IndexExpr:
+		if x.w.dom {
+			if b, s, ok, err := x.domIndex(y); ok || err != nil {
+				return b, s, err
+			}
+		}
 		bs, es, err := x.exprs([]ast.Expr{y.X, y.Index})
 		if err != nil {
 			return nil, "", err
@@ -793,6 +798,9 @@ func (x *xl) call(c *ast.CallExpr) ([]string, string, error) {
 		if x.w.dom {
 			if sel, ok := info.Selections[f]; ok && sel.Kind() == types.MethodVal {
 				if b, s, ok, err := x.domMethod(c, f); ok || err != nil {
+					return b, s, err
+				}
+				if b, s, ok, err := x.domRegexpCall(c, f); ok || err != nil {
 					return b, s, err
 				}
 			}
